@@ -222,6 +222,10 @@ class Leaves:
             return self._crop(I, fr, img, kwargs.get("boxes", args[1] if len(args) > 1 else None), node, "crop_and_resize")
         if q == "kornia.augmentation.container.AugmentationSequential":
             return I.new_obj("kornia:AugSeq", {"data_keys": kwargs.get("data_keys", Other("default")), "site": Other(f"aug@{self._caller(fr)}")})
+        if q in ("torch.full", "numpy.full", "torch.full_like", "numpy.full_like"):
+            fv = kwargs.get("fill_value", args[1] if len(args) > 1 else None)
+            if isinstance(fv, (Num, Geo)):
+                return fv  # a tensor filled with a geometric / scale quantity carries that quantity
         if q in FILL_EXT:
             return Other("fill", fill=True)
         if q in ("torch.tensor", "torch.Tensor", "numpy.array", "torch.as_tensor") and a0 is not None:
